@@ -509,12 +509,23 @@ func (g *gen) make(op Op, arity int, leaf string, level int, pass *Force) *Expr 
 		}
 		e.Dom = e.Fn.Src
 	case OpNew, OpFromCompare, OpAsOrd, OpReversed:
-		k := g.expr(level+1, pass)
+		var k *Expr
+		if op == OpReversed && pass == nil && level+1 < g.cfg.MaxDepth && r.IntN(3) == 0 {
+			// Option and as.Ord are the LessFunc-backed instances: reach LessFunc.Reversed too
+			g.budget--
+			k = g.make([]Op{OpAsOrd, OpOption}[r.IntN(2)], -1, "", level+1, nil)
+		} else {
+			k = g.expr(level+1, pass)
+		}
 		e.Kids = []*Expr{k}
 		e.Dom = k.Dom
 	case OpThen:
 		sec := g.expr(level+1, pass)
-		e.Kids = []*Expr{g.coarse(sec.Dom), sec}
+		prim := g.coarse(sec.Dom)
+		if r.IntN(3) == 0 {
+			prim = &Expr{Op: OpAsOrd, Dom: prim.Dom, Kids: []*Expr{prim}} // LessFunc.ThenComparing
+		}
+		e.Kids = []*Expr{prim, sec}
 		e.Dom = sec.Dom
 	default:
 		panic("dyn: cannot make op")
